@@ -29,6 +29,19 @@ def run(rep, tier):
                            "match": {"component": r["kind"], "signature": f[2]},
                            "how_to_replay": "harness.elab.run_case({'seed': %d, 'idx': <i>, 'kind': %r})" % (rep.seed, r["kind"])},
                           True, f"C19: {f[1]}")
+    # ---- arguments of the wrong type / out of range: refused with ValueError or TypeError, never an internal error
+    from .. import junk
+    jf, js = junk.probe()
+    jseen = set()
+    for name, arg, j, ecls, msg in jf:
+        if (name, arg) in jseen:
+            continue
+        jseen.add((name, arg))
+        rep.violation({"kind": "spec-violation", "component": name, "argument": arg, "value": j, "exception": ecls, "message": msg,
+                       "match": {"component": name, "signature": f"junk:{arg}:{ecls}"},
+                       "how_to_replay": "harness.junk.probe()"}, True,
+                      f"C19: {name} called with {arg}={j} fails with an internal error ({ecls}: {msg}) instead of a ValueError/TypeError")
+    rep.coverage["junk_argument_grid"] = js
     # ---- shadow correspondence: model of _Shadow.prepare vs the real shadow sizes / refusal
     agg = runner.correspondence(rep, prop=PROP, mod_name="harness.shadowc", driver_kind="mux",
                                 ncases=rep.scale(200) if tier == "quick" else 20000, oracle_props={"C19"},
@@ -56,6 +69,7 @@ def run(rep, tier):
                             "`raise` = descriptive refusal, anything else = internal), 120 s watchdog; non-trivial = instance that "
                             "elaborated three times; (b) random unaligned layouts × sharing limits: real _Shadow sizes / refusal vs "
                             "the Lean model of prepare(), plus every small layout (bounded_exhaustive) and far-apart registers in 16-32 bit "
-                            "address spaces (large_address_spaces)")
+                            "address spaces (large_address_spaces); (c) junk_argument_grid: every constructor and add()-style method with each argument "
+                            "in turn replaced by each of 12 junk values: accepted, or refused with ValueError/TypeError")
     rep.assumptions += ["Python exceptions, lib.memory's own freeze rule and Amaranth's elaboration are not modelled in Lean: "
                         "the 'never an internal error' clause is explored, not proved (label: partial)"]
